@@ -338,12 +338,19 @@ def instantiate(terms, rounds=3, templates=None):
         for d in idx_terms.values():
             all_idx.update(d)
         cands = list(all_idx.values())[:14]
+        key_cands = {}
+        for t in allsub.values():
+            if t.op == "select" and t.args[1].sort != INT and len(str(t.args[1])) < 200:
+                key_cands.setdefault(str(t.args[1].sort), {})[str(t.args[1])] = t.args[1]
+            if t.op == "store" and t.args[1].sort != INT and len(str(t.args[1])) < 200:
+                key_cands.setdefault(str(t.args[1].sort), {})[str(t.args[1])] = t.args[1]
         for t in allsub.values():
             if t.op == "#forall":
                 kv, rng, body = t.args
                 if not positive_in(t, terms_pos):
                     continue
-                for c in cands:
+                mycands = cands if kv.sort == INT else list(key_cands.get(str(kv.sort), {}).values())[:10]
+                for c in mycands:
                     if kv.args[0] in consts_of([c]):
                         continue
                     kk = ("fa", str(t), str(c))
